@@ -458,6 +458,15 @@ def formulas(ctx, mod):
         clamp = [s for s in g.sts if ok and isinstance(s, ast.Assign) and isinstance(s.targets[0], ast.Subscript) and unparse(s.targets[0].value) == base.id
                  and isinstance(s.targets[0].slice, ast.Compare)]
         okc = len(clamp) == 1 and unparse(clamp[0].targets[0].slice) == '%s < 1' % base.id and const(clamp[0].value) == 1.0 and clamp[0].lineno < divs[0].lineno
+        if okc:
+            # the clamp acts on the complete pair count: same block as the division, after the loop that accumulates the counts
+            blk = mod.parents.get(divs[0])
+            body = blk.body if hasattr(blk, 'body') and divs[0] in blk.body else getattr(blk, 'orelse', [])
+            acc = [x for x in body if isinstance(x, ast.For) and any(isinstance(y, ast.AugAssign) and unparse(y.target) == base.id for y in walk(x))]
+            same_block = clamp[0] in body
+            after_acc = bool(acc) and same_block and body.index(acc[-1]) < body.index(clamp[0]) < body.index(divs[0])
+            ctx.check('C02-D3', key + '-clamp-after-sum', after_acc, 'pair counts are summed over all replicas first, then clamped at 1, then divide Gamma',
+                      'the clamp of the pair counts is not applied to the completed sum over replicas (it sits %s)' % ('inside the accumulation loop' if not same_block else 'before the accumulation'), mod.loc(clamp[0]))
         ctx.check('C02-D3', key, bool(ok and okc), 'Gamma(t) is divided by the number of pairs actually present, clamped at 1',
                   'normalisation of Gamma differs: %s ; clamp %s' % (unparse(divs[0]), [unparse(c) for c in clamp]), mod.loc(divs[0]))
 
@@ -696,6 +705,7 @@ SELFTEST = [
     ('errsq-no-cov', 'pyerrors/covobs.py', "return np.dot(np.transpose(self.grad), np.dot(self.cov, self.grad)).item()", "return np.dot(np.transpose(self.grad), self.grad).item()", 'C02-D1'),
     ('ddvalue-not-normalised', 'pyerrors/obs.py', "self.ddvalue = np.sqrt(self.ddvalue) / self._dvalue", "self.ddvalue = np.sqrt(self.ddvalue)", 'C02-D1'),
     ('no-pair-clamp', 'pyerrors/obs.py', "gamma_div[gamma_div < 1] = 1.0", "gamma_div[gamma_div < 0] = 1.0", 'C02-D3'),
+    ('clamp-inside-loop', 'pyerrors/obs.py', "            gamma_div[gamma_div < 1] = 1.0\n", "                gamma_div[gamma_div < 1] = 1.0\n", 'C02-D3'),
     ('direct-lag-dropped', 'pyerrors/obs.py', "deltas[0:new_shape - n].dot(deltas[n:new_shape])", "deltas[0:new_shape - n].dot(deltas[0:new_shape - n])", 'C02-D4'),
     ('rho-normalisation', 'pyerrors/obs.py', "self.e_rho[e_name] = e_gamma[e_name][:w_max] / e_gamma[e_name][0]", "self.e_rho[e_name] = e_gamma[e_name][:w_max] / e_gamma[e_name][1]", 'C02-D1'),
     ('cumsum-first', 'pyerrors/obs.py', "np.cumsum(np.concatenate(([0.5], self.e_rho[e_name][1:])))", "np.cumsum(np.concatenate(([1.0], self.e_rho[e_name][1:])))", 'C02-D1'),
